@@ -199,25 +199,36 @@ pub struct Finding {
 }
 
 pub fn load_findings() -> Vec<Finding> {
-    let p = Path::new(VERIF).join("known_findings.json");
-    let Ok(s) = std::fs::read_to_string(&p) else {
-        return vec![];
-    };
-    let v: Value = match serde_json::from_str(&s) {
-        Ok(v) => v,
-        Err(e) => {
-            eprintln!("known_findings.json does not parse: {e}");
-            std::process::exit(2)
-        }
-    };
-    let arr = v.get("findings").cloned().unwrap_or(json!([]));
-    match serde_json::from_value(arr) {
-        Ok(f) => f,
-        Err(e) => {
-            eprintln!("known_findings.json has a bad entry: {e}");
-            std::process::exit(2)
+    // /verif/known_findings.json plus per-property fragments /verif/findings.d/*.json
+    let mut files = vec![Path::new(VERIF).join("known_findings.json")];
+    if let Ok(rd) = std::fs::read_dir(Path::new(VERIF).join("findings.d")) {
+        let mut extra: Vec<PathBuf> = rd
+            .filter_map(|e| e.ok().map(|e| e.path()))
+            .filter(|p| p.extension().map(|x| x == "json").unwrap_or(false))
+            .collect();
+        extra.sort();
+        files.extend(extra);
+    }
+    let mut out = vec![];
+    for p in files {
+        let Ok(s) = std::fs::read_to_string(&p) else { continue };
+        let v: Value = match serde_json::from_str(&s) {
+            Ok(v) => v,
+            Err(e) => {
+                eprintln!("{} does not parse: {e}", p.display());
+                std::process::exit(2)
+            }
+        };
+        let arr = v.get("findings").cloned().unwrap_or(json!([]));
+        match serde_json::from_value::<Vec<Finding>>(arr) {
+            Ok(f) => out.extend(f),
+            Err(e) => {
+                eprintln!("{} has a bad entry: {e}", p.display());
+                std::process::exit(2)
+            }
         }
     }
+    out
 }
 
 // ------------------------------------------------------------------------------------------
